@@ -183,7 +183,7 @@ func (pr *ProtoArray) CanonAtSlot(anchor Root, slot Slot, withBlock bool) (at No
 			if !ok {
 				panic("anchor node is missing")
 			}
-			node := &pr.nodes[i]
+			node := &pr.nodes[i-pr.indexOffset]
 			// Is the anchor a filled node?
 			if node.ParentRoot != anchor {
 				return NodeRef{}, fmt.Errorf("cannot look for pre-block %d at anchor, anchor is post-block", slot)
@@ -253,7 +253,7 @@ func (pr *ProtoArray) Search(anchor NodeRef, parentRoot *Root, slot *Slot) (nonC
 			// if it has no child, it's a head.
 			if node.BestChild != NONE {
 				// if it has only empty slots as children, it's a head.
-				desc := &pr.nodes[node.BestDescendant]
+				desc := &pr.nodes[node.BestDescendant-pr.indexOffset]
 				if desc.Ref.Root != node.Ref.Root {
 					continue
 				}
@@ -553,7 +553,7 @@ func (pr *ProtoArray) inSubtree(anchorIndex NodeIndex, lookupIndex NodeIndex) (u
 	}
 	// Root may still be on a different non-canonical branch out of the anchor.
 	for i := lookupNode.TransitionParent; i != NONE && i >= anchorIndex; {
-		tmp := &pr.nodes[i]
+		tmp := &pr.nodes[i-pr.indexOffset]
 		// early exit: as soon as we find a node that has the same relative head as the anchor,
 		// we know we are in-between the anchor and the head, thus in the subtree, thus an ancestor.
 		if i == anchorIndex || (anchorNode.BestDescendant != NONE && tmp.BestDescendant == anchorNode.BestDescendant) {
